@@ -204,3 +204,237 @@ Proof.
     rewrite (nth_error_nth' al [] Hi_al). cbn [option_map].
     rewrite Hinert; [reflexivity|]. apply nth_In. exact Hi_al.
 Qed.
+
+Section FunLike.
+Variable fs : list fdef.
+Hypothesis Hwf : wf_fdefs fs = true.
+
+Notation tb := (mtable2 fs).
+Notation stb := (stable2 fs).
+
+Lemma Hwf_each f : In f fs -> wf_fdef fs f = true.
+Proof. unfold wf_fdefs in Hwf. apply andb_true_iff in Hwf. destruct Hwf as [_ H]. rewrite forallb_forall in H. apply H. Qed.
+
+Lemma is_fl_funname t : is_fl tb t = is_id t && is_funname fs (tt t).
+Proof.
+  unfold is_fl, is_funname. rewrite get_mtable2. destruct (flookup fs (tt t)) as [[n b|n ps b]|]; reflexivity.
+Qed.
+Lemma is_flb_funname t : is_flb stb (btok_of t) = is_id t && is_funname fs (tt t).
+Proof.
+  unfold is_flb, is_funname. cbn [btok_of bk bt]. rewrite slookup2.
+  destruct (flookup fs (tt t)) as [[n b|n ps b]|]; reflexivity.
+Qed.
+
+Lemma okf_okt2 t : okf fs t = true -> okt2 tb t = true.
+Proof.
+  unfold okf, okt2. rewrite andb_true_iff. intros [Ho Hn]. rewrite (okd_okt t Ho), is_fl_funname. exact Hn.
+Qed.
+Lemma okf_okb2 t : okf fs t = true -> okb2 stb (btok_of t) = true.
+Proof.
+  unfold okf, okb2. rewrite andb_true_iff. intros [Ho Hn]. rewrite (okd_okb t Ho), is_flb_funname. exact Hn.
+Qed.
+
+Lemma Hobj2 k m : get_macro tb k = Some m ->
+  m_name m = k /\ (m_fun m = false -> forallb (okt2 tb) (m_repl m) = true).
+Proof.
+  rewrite get_mtable2. destruct (flookup fs k) as [f|] eqn:E; [|discriminate]. cbn. intros H. injection H as <-.
+  pose proof (flookup_name _ _ _ E) as Hn. pose proof (Hwf_each f (flookup_In _ _ _ E)) as Hf.
+  destruct f as [n b|n ps b]; cbn [macro_of_fdef omacro fmacro m_name m_fun m_repl fname] in *.
+  - split; [assumption|]. intros _. apply okt2_set_w_hd.
+    unfold wf_fdef in Hf. cbn [fname fbody] in Hf. rewrite !andb_true_iff in Hf. destruct Hf as [[_ Hb] _].
+    apply (forallb_impl (okf fs) (okt2 tb)); [apply okf_okt2|assumption].
+  - split; [assumption|discriminate].
+Qed.
+
+Lemma HSobj2 k b0 : slookup stb k = Some (SObj b0) -> forallb (okb2 stb) b0 = true.
+Proof.
+  rewrite slookup2. destruct (flookup fs k) as [f|] eqn:E; [|discriminate]. cbn.
+  pose proof (Hwf_each f (flookup_In _ _ _ E)) as Hf.
+  destruct f as [n b|n ps b]; cbn [smacro_of_fdef]; intros H; [|discriminate]. injection H as <-.
+  unfold wf_fdef in Hf. cbn [fname fbody] in Hf. rewrite !andb_true_iff in Hf. destruct Hf as [[_ Hb] _].
+  rewrite forallb_forall. intros x Hx. apply in_map_iff in Hx. destruct Hx as (t & <- & Ht).
+  apply okf_okb2. rewrite forallb_forall in Hb. now apply Hb.
+Qed.
+
+(* ---------- E and ES give the same spellings (white space ignored) ---------- *)
+Definition sim (hs : list string) (t : tok) (h : htok) : Prop := hk h = tk t /\ ht h = tt t /\ hh h = hs.
+
+Lemma sim_set_w hs w w' l l' : Forall2 (sim hs) l l' -> Forall2 (sim hs) (set_w_hd w l) (hset_w w' l').
+Proof.
+  intros H. destruct H as [|t h l l' Hth Hr]; cbn; [constructor|]. constructor; [|assumption].
+  destruct Hth as (H1 & H2 & H3). repeat split; assumption.
+Qed.
+Lemma sim_set_w_l hs w l l' : Forall2 (sim hs) l l' -> Forall2 (sim hs) (set_w_hd w l) l'.
+Proof.
+  intros H. destruct H as [|t h l l' Hth Hr]; cbn; [constructor|]. constructor; [|assumption].
+  destruct Hth as (H1 & H2 & H3). repeat split; assumption.
+Qed.
+Lemma sim_lift hs b : Forall2 (sim hs) b (map (lift hs) (map btok_of b)).
+Proof. induction b as [|t r IH]; cbn; constructor; [repeat split|assumption]. Qed.
+
+Lemma corr2_tok d ne hs t h
+  (IH : forall ne' hs' ts' hs'l, (forall s, in_noexp s ne' = mem s hs') -> forallb (okt2 tb) ts' = true ->
+        Forall2 (sim hs') ts' hs'l ->
+        match d with O => True | S d' =>
+          map sp (flat_map (E tb d' ne') ts') = map sph (flat_map (ES stb d') hs'l) end) :
+  (forall s, in_noexp s ne = mem s hs) -> okt2 tb t = true -> sim hs t h ->
+  map sp (E tb d ne t) = map sph (ES stb d h).
+Proof.
+  intros Hne Hot (Hk & Ht & Hh). rewrite E_eq, ES_eq. rewrite Hk, Ht, Hh.
+  change (tkind_eqb (tk t) KId) with (is_id t).
+  unfold okt2 in Hot. apply andb_true_iff in Hot. destruct Hot as [Hot Hnfl]. apply negb_true_iff in Hnfl.
+  destruct (is_id t) eqn:Hid; cbn [negb]; [|unfold sp, sph; cbn; now rewrite Hk, Ht].
+  assert (Hx : tx t = true) by (unfold okt in Hot; apply andb_true_iff in Hot; tauto).
+  rewrite Hx. cbn [negb orb]. rewrite Hne.
+  destruct (mem (tt t) hs) eqn:Hm; [unfold sp, sph; cbn; now rewrite Hk, Ht|].
+  rewrite get_mtable2, slookup2.
+  destruct (flookup fs (tt t)) as [f|] eqn:Ef; cbn [option_map]; [|unfold sp, sph; cbn; now rewrite Hk, Ht].
+  destruct f as [n b|n ps b]; cbn [macro_of_fdef smacro_of_fdef].
+  2:{ (* a function-like name: excluded *)
+      rewrite is_fl_funname, Hid in Hnfl. unfold is_funname in Hnfl. rewrite Ef in Hnfl. discriminate. }
+  destruct d as [|d']; [unfold sp, sph; cbn; now rewrite Hk, Ht|].
+  cbn [omacro m_name m_repl].
+  pose proof (flookup_name _ _ _ Ef) as Hn. cbn [fname] in Hn. subst n.
+  apply (IH (Some (tt t) :: ne) (tt t :: hs)).
+  - intros s. cbn [in_noexp existsb]. change (existsb _ ne) with (in_noexp s ne). rewrite Hne.
+    unfold mem. cbn [existsb]. now rewrite String.eqb_sym.
+  - destruct (Hobj2 _ _ (eq_trans (get_mtable2 fs (tt t)) (f_equal (option_map macro_of_fdef) Ef))) as [_ Hb].
+    apply okt2_set_w_hd. exact (Hb eq_refl).
+  - apply sim_set_w. apply sim_set_w_l. apply sim_lift.
+Qed.
+
+Lemma corr2 d : forall ne hs ts hsl,
+  (forall s, in_noexp s ne = mem s hs) -> forallb (okt2 tb) ts = true -> Forall2 (sim hs) ts hsl ->
+  map sp (flat_map (E tb d ne) ts) = map sph (flat_map (ES stb d) hsl).
+Proof.
+  induction d as [|d IHd]; intros ne hs ts hsl Hne Hok Hsim; induction Hsim as [|t h ts hsl Hth Hr IHr];
+    try reflexivity; cbn [forallb] in Hok; apply andb_true_iff in Hok; destruct Hok as [Hot Hor];
+    cbn [flat_map]; rewrite !map_app, (IHr Hor); f_equal; apply (corr2_tok _ ne hs); try assumption;
+    intros ne' hs' ts' hs'l H1 H2 H3; try exact I; now apply (IHd ne' hs').
+Qed.
+
+(* ---------- the source list ---------- *)
+Definition hl0 (t : tok) : htok := lift [] (btok_of t).
+
+Definition wf_src (i : sitem) : Prop :=
+  forallb okd (stoks i) = true /\
+  match i with
+  | SToks l => forallb (src_tok fs) l = true
+  | SCall t lp a more rp =>
+      is_id t = true /\ is_def t = false /\ is_punct "(" lp = true /\ is_punct ")" rp = true /\
+      forallb (arg_tok fs) a = true /\
+      Forall (fun ca => is_punct "," (fst ca) = true /\ forallb (arg_tok fs) (snd ca) = true) more /\
+      exists n ps b, flookup fs (tt t) = Some (FFun n ps b) /\ List.length ps = S (List.length more)
+  end.
+
+(* arguments are inert: not macro names *)
+Lemma arg_tok_facts t : arg_tok fs t = true ->
+  okd t = true /\ plain_arg t = true /\ (is_id t = true -> flookup fs (tt t) = None).
+Proof.
+  unfold arg_tok. rewrite !andb_true_iff, !negb_true_iff. intros [[[Ho _] Hm] Hp]. repeat split; try assumption.
+  intros Hid. rewrite Hid in Hm. cbn in Hm. unfold is_macname in Hm. destruct (flookup fs (tt t)); [discriminate|reflexivity].
+Qed.
+
+Lemma E_inert d ne t : arg_tok fs t = true -> somes ne = [] -> E tb d ne t = [t].
+Proof.
+  intros Ha Hne. destruct (arg_tok_facts t Ha) as (Ho & _ & Hm). rewrite E_eq.
+  destruct (is_id t) eqn:Hid; cbn [negb]; [|reflexivity].
+  assert (Hx : tx t = true) by (unfold okd in Ho; rewrite !andb_true_iff in Ho; tauto).
+  rewrite Hx. cbn [negb orb].
+  replace (in_noexp (tt t) ne) with false.
+  2:{ symmetry. apply not_true_is_false. intros H. apply in_noexp_spec in H. rewrite Hne in H. contradiction. }
+  rewrite get_mtable2, (Hm eq_refl). reflexivity.
+Qed.
+Lemma E_inert_list d ne a : forallb (arg_tok fs) a = true -> somes ne = [] -> flat_map (E tb d ne) a = a.
+Proof.
+  induction a as [|t r IH]; intros H Hne; [reflexivity|]. cbn [forallb] in H. apply andb_true_iff in H. destruct H as [Ht Hr].
+  cbn [flat_map]. rewrite (E_inert _ _ _ Ht Hne), (IH Hr Hne). reflexivity.
+Qed.
+
+Lemma arg_okt2 t : arg_tok fs t = true -> okt2 tb t = true.
+Proof.
+  intros Ha. destruct (arg_tok_facts t Ha) as (Ho & _ & Hm). unfold okt2. rewrite (okd_okt t Ho), is_fl_funname.
+  destruct (is_id t) eqn:Hid; [|reflexivity]. unfold is_funname. now rewrite (Hm eq_refl).
+Qed.
+
+Lemma fun_facts n ps b : In (FFun n ps b) fs ->
+  forallb (okf fs) b = true /\ ps <> [] /\ nodup_str ps = true /\ mem "__VA_ARGS__" ps = false /\
+  forallb no_ops b = true /\ (forall t, In t b -> (is_id t || negb (mem (tt t) ps)) = true) /\
+  (forall t, In t b -> String.eqb (tt t) "" = false).
+Proof.
+  intros Hin. pose proof (Hwf_each _ Hin) as Hf. unfold wf_fdef in Hf. cbn [fname fbody] in Hf.
+  rewrite !andb_true_iff, !negb_true_iff in Hf. destruct Hf as [[_ Hb] [[[[Hl Hnd] Hva] Hh] Hp]].
+  assert (Hokd : forall t, In t b -> okd t = true).
+  { intros t Ht. rewrite forallb_forall in Hb. specialize (Hb t Ht). unfold okf in Hb. apply andb_true_iff in Hb. tauto. }
+  repeat split; try assumption.
+  - intros ->. discriminate.
+  - rewrite forallb_forall. intros t Ht. unfold no_ops. rewrite forallb_forall in Hh. specialize (Hh t Ht).
+    unfold is_txt. rewrite Hh. cbn. specialize (Hokd t Ht). unfold okd, okb in Hokd.
+    rewrite !andb_true_iff in Hokd. cbn [btok_of bt] in Hokd. tauto.
+  - intros t Ht. rewrite forallb_forall in Hp. now apply Hp.
+  - intros t Ht. specialize (Hokd t Ht). unfold okd, okb in Hokd. rewrite !andb_true_iff, !negb_true_iff in Hokd.
+    cbn [btok_of bt] in Hokd. tauto.
+Qed.
+
+(* ---------- implementation side: the static conditions give wf_sitem ---------- *)
+Lemma src_wfd l : forallb (src_tok fs) l = true -> wfd tb l = true.
+Proof.
+  induction l as [|t r IH]; intros H; [reflexivity|]. cbn [forallb] in H. apply andb_true_iff in H. destruct H as [Ht Hr].
+  unfold src_tok in Ht. rewrite andb_true_iff, negb_true_iff in Ht. destruct Ht as [Hf Hd].
+  cbn [wfd]. unfold is_def in Hd. rewrite Hd.
+  pose proof (okf_okt2 t Hf) as Ho. unfold okt2, okt in Ho. rewrite !andb_true_iff in Ho.
+  destruct Ho as [[Hx _] Hn]. rewrite Hx, Hn. now apply IH.
+Qed.
+
+Lemma sm_okt2 ps al body :
+  forallb (okt2 tb) body = true -> Forall (fun a => forallb (okt2 tb) a = true) al ->
+  forallb (okt2 tb) (sm ps al body) = true.
+Proof.
+  intros Hb Hal. unfold sm. rewrite forallb_forall. intros x Hx. apply in_flat_map in Hx.
+  destruct Hx as (t & Ht & Hx). rewrite forallb_forall in Hb.
+  destruct (index_of (tt t) ps 0) as [i|].
+  - assert (Hi : i < List.length al \/ List.length al <= i) by lia.
+    destruct Hi as [Hi|Hi]; [|rewrite nth_overflow in Hx by assumption; contradiction].
+    rewrite Forall_forall in Hal. specialize (Hal _ (nth_In al [] Hi)). rewrite forallb_forall in Hal.
+    destruct (nth i al []) as [|y r] eqn:En; [contradiction|]. cbn [set_w_hd] in Hx.
+    destruct Hx as [<-|Hx]; [|apply Hal; now right].
+    specialize (Hal y (or_introl eq_refl)). exact Hal.
+  - destruct Hx as [<-|[]]. now apply Hb.
+Qed.
+
+Lemma okt2_set_w w t : okt2 tb (set_w w t) = okt2 tb t.
+Proof. reflexivity. Qed.
+
+Lemma wf_src_sitem lead cat_fix str_white resub_fix va_fix d i :
+  wf_src i -> wf_sitem lead cat_fix str_white resub_fix va_fix tb d [None] i.
+Proof.
+  intros [Hokd Hi]. destruct i as [l|t lp a more rp]; cbn [wf_sitem].
+  - now apply src_wfd.
+  - destruct Hi as (Hid & Hdef & Hlp & Hrp & Ha & Hmore & n & ps & b & Hfl & Hlen).
+    assert (Hto : okd t = true) by (cbn [stoks forallb] in Hokd; apply andb_true_iff in Hokd; tauto).
+    assert (Hx : tx t = true) by (unfold okd in Hto; rewrite !andb_true_iff in Hto; tauto).
+    assert (Hargs : Forall (fun x => forallb (arg_tok fs) x = true) (a :: map snd more)).
+    { constructor; [assumption|]. rewrite Forall_forall in Hmore |- *. intros x Hxin. apply in_map_iff in Hxin.
+      destruct Hxin as (ca & <- & Hca). now apply Hmore. }
+    split; [assumption|]. split; [unfold is_def in Hdef; rewrite Hid in Hdef; exact Hdef|].
+    split; [rewrite Hx; reflexivity|]. split; [now apply is_punct_txt|].
+    split.
+    { apply (forallb_impl (arg_tok fs) plain_arg); [|assumption]. intros x Hxa. now destruct (arg_tok_facts x Hxa) as (_ & Hp & _). }
+    split.
+    { unfold more_ok. rewrite Forall_forall in Hmore |- *. intros ca Hca. destruct (Hmore ca Hca) as [Hc Hal]. split; [now apply is_punct_txt|].
+      apply (forallb_impl (arg_tok fs) plain_arg); [|assumption]. intros x Hxa. now destruct (arg_tok_facts x Hxa) as (_ & Hp & _). }
+    split; [now apply is_punct_txt|].
+    split.
+    { rewrite Forall_forall in Hargs |- *. intros x Hxin. apply (forallb_impl (arg_tok fs) (okt2 tb)); [apply arg_okt2|now apply Hargs]. }
+    destruct (fun_facts n ps b (flookup_In _ _ _ Hfl)) as (Hb & Hps & Hnd & Hva & Hno & Hpar & Hne).
+    exists (fmacro n ps b), (sm ps (a :: map snd more) (set_w_hd false b)).
+    split; [rewrite get_mtable2, Hfl; reflexivity|]. split; [reflexivity|]. split; [reflexivity|].
+    split.
+    { apply replace_fun_fmacro; try assumption.
+      - cbn [List.length]. now rewrite map_length.
+      - intros x Hxin. rewrite Forall_forall in Hargs. apply E_inert_list; [now apply Hargs|reflexivity]. }
+    apply okt2_set_w_hd. apply sm_okt2.
+    + apply okt2_set_w_hd. apply (forallb_impl (okf fs) (okt2 tb)); [apply okf_okt2|assumption].
+    + rewrite Forall_forall in Hargs |- *. intros x Hxin. apply (forallb_impl (arg_tok fs) (okt2 tb)); [apply arg_okt2|now apply Hargs].
+Qed.
+End FunLike.
